@@ -45,7 +45,7 @@ var hmCdc = pt.NewCDC()
 
 func rawHeimdall(h hdrSpec) ([]byte, []byte) {
 	key := "hm|" + h.String() + "|" + string(h.AppHash)
-	if v, ok := rawMemo.Load(key); ok {
+	if v, ok := rawMemo.Load(key); ok && h.Memo {
 		p := v.([2][]byte)
 		return p[0], p[1]
 	}
@@ -111,6 +111,8 @@ func rawHeimdall(h hdrSpec) ([]byte, []byte) {
 	if err != nil {
 		panic(err)
 	}
-	rawMemo.Store(key, [2][]byte{raw, hh})
+	if h.Memo {
+		rawMemo.Store(key, [2][]byte{raw, hh})
+	}
 	return raw, hh
 }
